@@ -2210,6 +2210,15 @@ def gen_c20_scenario(r):
     suffix = [["solve", 0, cap_iterations(r, {"method": method})], ["solve", 0, cap_iterations(r, {"method": r.choice(HESS_METHODS + ["auto", "SLSQP"])})]]
     if r.random() < 0.3:
         suffix[0][2]["x0_prev"] = True
+    elif method not in LP_METHODS and method != "auto" and r.random() < 0.35:
+        # the user retries from the very same explicit start point (a point well inside the box,
+        # where the objective's terms are not negligible): whatever the failed attempt left behind
+        # for that point is asked for again
+        names = sorted(S.problem_vars(sh), key=S.natural_key)
+        if names:
+            pt = gen_point(r, sp, names)
+            a["x0"] = [pt[n] for n in names]
+            suffix[0][2]["x0"] = list(a["x0"])
     if r.random() < 0.3:
         suffix.insert(1, ["read_bounds", 0])
     return {"prefix": ops, "target": target, "suffix": suffix, "lin": lin, "sh": sh, "meta": meta, "deep": deep}
